@@ -6,9 +6,20 @@ class Node:
 
     _ids = iter(range(1, 10 ** 9))
 
+    NF_READS = 0  # how many times any node's next_functions was read (a graph walk that marks visited nodes reads each node's once)
+
+    @property
+    def next_functions(self):
+        Node.NF_READS += 1
+        return self._next_functions
+
+    @next_functions.setter
+    def next_functions(self, v):
+        self._next_functions = v
+
     def __init__(self, name="OpBackward"):
         self._name = name
-        self.next_functions = ()
+        self._next_functions = ()
         self.freed = False
         self.saves = True
         self.vmap_ok = True
